@@ -172,3 +172,89 @@ def check_refine(prop, tier):
         return res.finish(tier)
     finally:
         shutil.rmtree(work, ignore_errors=True)
+
+
+# --------------------------------------------------------------------------- X03: windowed z-score
+
+def _zw_job(job):
+    import contextlib, io
+    items, start, workdir = job
+    from praatio.utilities import my_math
+    out = []
+    for i, v in enumerate(items):
+        a = v["args"]
+        st, ret = "ok", []
+        try:
+            with contextlib.redirect_stdout(io.StringIO()):
+                r = my_math.znormWindowFilter([float(x) for x in v["xs"]], a["window"], a["pad"], a["filterZero"])
+            ret = [int(round(x * 100)) for x in r]
+        except Exception as ex:  # noqa
+            st = type(ex).__name__
+        out.append({"id": start + i, "fam": "series", "op": "zwindow", "xs": v["xs"], "args": a, "st": st, "ret": ret,
+                    "impl": v.get("impl")})
+    return out
+
+
+def check_zwindow(prop, tier):
+    import random
+    res = common.Result(prop)
+    work = common.scratch()
+    sz = {"quick": dict(MaxLen=5, VMax=3, rand=4000), "thorough": dict(MaxLen=6, VMax=3, rand=80000)}[tier]
+    try:
+        T.praatio()
+        nsl = common.NCPU
+        jobs = []
+        for sl in range(nsl):
+            fn = os.path.join(work, "MC_SeriesExt_%d.cfg" % sl)
+            common.write_cfg(fn, dict(MaxLen=sz["MaxLen"], VMax=sz["VMax"], Emit=True, Slice=sl, NSlices=nsl), invariants=["NoFail", "EmitInv"])
+            jobs.append(fn)
+        emitted = []
+        with ThreadPoolExecutor(max_workers=common.NCPU) as ex:
+            for r in ex.map(lambda fn: common.run_tlc("MC_SeriesExt", fn, work, workers=1, timeout=7200), jobs):
+                res.add_tlc(r)
+                if common.tlc_failed(r):
+                    sys.stderr.write(r["out"][-3000:])
+                    raise common.MachineryError("MC_SeriesExt failed at design level")
+                emitted.extend(common.parse_json_lines(r["out"]))
+        res.exhaustive = True
+        items = [{"xs": e["xs"], "args": e["args"], "impl": {"st": e["st"], "ret": e["ret"]}} for e in emitted]
+        rng = random.Random(common.SEED * 613 + 29)
+        for _ in range(sz["rand"]):
+            n = rng.randint(0, 14)
+            kind = rng.random()
+            xs = [rng.randint(0, 9) for _k in range(n)] if kind < 0.6 else [rng.choice([0, 0, 5, 7]) for _k in range(n)] if kind < 0.8 \
+                else [rng.randint(1, 9) for _k in range(n)]       # (values <= 9, windows <= 7: the clause arithmetic stays within 32 bits)
+            items.append({"xs": xs, "args": {"window": rng.randint(0, 7), "pad": rng.random() < 0.5, "filterZero": rng.random() < 0.5}})
+        import multiprocessing as mp
+        size = max(1, len(items) // (2 * common.NCPU) + 1)
+        chunks = [(items[i:i + size], i, work) for i in range(0, len(items), size)]
+        with mp.get_context("fork").Pool(common.NCPU) as pool:
+            events = [e for ch in pool.map(common.Guarded(_zw_job), chunks) for e in ch]
+        events = common.split_broken(res, prop, events)
+        ndrift = 0
+        for i, e in enumerate(events):
+            e["id"] = i
+            impl = e.pop("impl", None)
+            # the Impl's rounding is exact, the float's may differ in the last digit at a tie: compare the status, and values within 1
+            if impl is not None and (impl["st"] != e["st"] or len(impl["ret"]) != len(e["ret"]) or
+                                     any(abs(a - b) > 1 for a, b in zip(impl["ret"], e["ret"]))):
+                ndrift += 1
+                res.violations.append((prop + "_real_result_equals_ZWindowImpl", dict(e, impl=impl)))
+            a = e["args"]
+            res.distinct.add((e["st"], a["window"], a["pad"], a["filterZero"], min(len(e["xs"]), 6), 0 in e["xs"]))
+        if events:
+            res.add_sample(events[0])
+            res.add_sample(events[-1])
+        verdicts, nval, cmd = common.validate_traces("Trace_SeriesExt", events, work)
+        res.cmds.append(cmd)
+        res.traces += nval
+        res.evaluations += len(events)
+        res.judge(events, verdicts, common.load_findings(), lambda c: c.startswith(prop + "_") or c == "UNKNOWN_OP")
+        res.notes = dict(enumerated=len(emitted), random=sz["rand"], impl_drift=ndrift)
+        res.assumptions = ["integer-valued series (the z-score is compared in exact integer arithmetic up to the rounding of round(100 z))"]
+        res.rule = ("every integer series up to MaxLen over 0..VMax x window 0..5 x padding x zero filter of the TLC model replayed through "
+                    "my_math.znormWindowFilter (status and values must equal the model's), plus random longer series with zeros, constant runs "
+                    "and windows up to 7")
+        return res.finish(tier)
+    finally:
+        shutil.rmtree(work, ignore_errors=True)
